@@ -191,12 +191,8 @@ func checkInitStatusDataflow(c *report.Ctx) {
 		return
 	}
 	name := an.FuncName(f)
-	var status *ssa.Alloc
-	an.AllInstrs(f, func(in ssa.Instruction) {
-		if a, ok := in.(*ssa.Alloc); ok && a.Comment == "runtimeDoneStatus" {
-			status = a
-		}
-	})
+	// the status variable: the local whose value the deferred closure hands to the init-runtime-done event
+	status := emittedCell(f, "L/rapid.sendInitRuntimeDoneLogEvent", 2)
 	if status == nil {
 		c.Unresolved("ANCHOR", name+"/runtimeDoneStatus", "status variable not found")
 		return
@@ -493,12 +489,8 @@ func checkRestoreEvent(c *report.Ctx) {
 	ok := n == 1 && d != nil && d.Block() == f.Blocks[0]
 	c.Check("R-COUNT", name+"/restore-runtime-done-once", "every restore emits exactly one restore-runtime-done (deferred in the entry block)", ok, fpos(f), n, "%d sites; deferred at entry: %v", n, d != nil)
 	// status error iff returned error non-nil: every exit returning a non-nil error has 'error' as the only reaching value
-	var status *ssa.Alloc
-	an.AllInstrs(f, func(in ssa.Instruction) {
-		if a, ok := in.(*ssa.Alloc); ok && a.Comment == "restoreStatus" {
-			status = a
-		}
-	})
+	// the status variable: the local whose value the deferred closure hands to the restore-runtime-done event
+	status := emittedCell(f, "L/rapid.sendRestoreRuntimeDoneLogEvent", 1)
 	if status == nil {
 		c.Unresolved("ANCHOR", name+"/restoreStatus", "status variable not found")
 		return
@@ -698,3 +690,18 @@ func sameBranchRegion(b, cblk *ssa.BasicBlock) bool {
 }
 
 var _ = report.Discharged
+
+// emittedCell finds the local of f whose value a closure of f passes as argument idx to callee.
+func emittedCell(f *ssa.Function, callee string, idx int) *ssa.Alloc {
+	var cell *ssa.Alloc
+	for _, g := range f.AnonFuncs {
+		for _, call := range an.CallsTo(g, callee) {
+			if idx < len(call.Common().Args) {
+				if a, ok := freeVarBinding(g, call.Common().Args[idx]).(*ssa.Alloc); ok {
+					cell = a
+				}
+			}
+		}
+	}
+	return cell
+}
